@@ -49,23 +49,6 @@ Qed.
 Lemma under_links_app : forall a b p, under_links (a ++ b) p = under_links a p || under_links b p.
 Proof. intros. unfold under_links. apply existsb_app. Qed.
 
-Lemma above_not_prefix_back : forall q d, above q d -> is_prefix d q = false.
-Proof.
-  intros q d [r [-> [Hq Hr]]]. destruct (is_prefix (q ++ r) q) eqn:E; [|reflexivity].
-  apply is_prefix_spec in E as [r' E]. rewrite <- app_assoc in E. rewrite <- (app_nil_r q) in E at 1.
-  apply app_inv_head in E. destruct r; [contradiction | discriminate].
-Qed.
-
-Lemma above_neq : forall q d, above q d -> q <> d.
-Proof.
-  intros q d A E. subst. apply above_not_prefix_back in A. now rewrite is_prefix_refl in A.
-Qed.
-
-Lemma prefix_cases : forall l p, is_prefix l p = true -> l = p \/ is_proper_prefix l p = true.
-Proof.
-  intros l p H. unfold is_proper_prefix. rewrite H. destruct (path_eqb l p) eqn:E; [left; now apply path_eqb_eq | now right].
-Qed.
-
 Section Phase1.
   Variables ob nb : build.
   Hypothesis Wo : wf_build ob.
